@@ -289,12 +289,52 @@ func (k *kvRunner) fail(key, what string) {
 
 // call runs one library call under Guard; ok=false means it panicked (reported)
 func (k *kvRunner) call(name string, fn func() error) (err error, ok bool) {
-	if p, st := engine.Guard(func() { err = fn() }); p != nil {
-		k.fail("panic:"+engine.LibraryFrame(st), fmt.Sprintf("%s panicked: %v", name, p))
-		return nil, false
+	type res struct {
+		err error
+		p   any
+		st  string
 	}
-	return err, true
+	done := make(chan res, 1)
+	go func() {
+		var r res
+		r.p, r.st = engine.Guard(func() { r.err = fn() })
+		done <- r
+	}()
+	select {
+	case r := <-done:
+		if r.p != nil {
+			k.fail("panic:"+engine.LibraryFrame(r.st), fmt.Sprintf("%s panicked: %v", name, r.p))
+			return nil, false
+		}
+		return r.err, true
+	case <-time.After(kvCallPatience):
+	}
+	// the call has not returned. It is a finding only if the goroutine dump shows a goroutine parked on a lock
+	// inside the back end (a lock that was never released); anything else is a slow machine: inconclusive
+	buf := make([]byte, 1<<20)
+	buf = buf[:runtime.Stack(buf, true)]
+	blocked := ""
+	for _, g := range strings.Split(string(buf), "\n\n") {
+		if strings.Contains(g, "nodeenrollment/storage/") && (strings.Contains(g, "sync.(*RWMutex).Lock") || strings.Contains(g, "sync.(*RWMutex).RLock") || strings.Contains(g, "sync.(*Mutex).Lock")) {
+			blocked = g
+			break
+		}
+	}
+	if blocked != "" {
+		head := blocked
+		if i := strings.Index(head, "\n"); i > 0 {
+			head = head[:i]
+		}
+		k.fail("operation-never-returned:"+k.backend+":"+name, fmt.Sprintf("%s has not returned after %v: its goroutine is parked on a lock of the back end (%s) - an earlier operation left the lock held", name, kvCallPatience, head))
+	} else {
+		k.failed = true
+		k.c.R.Inconclusive(fmt.Sprintf("a %s call on the %s back end did not return within %v and is not parked on a back-end lock", name, k.backend, kvCallPatience))
+	}
+	return nil, false
 }
+
+// kvCallPatience: how long a single back-end call may take before its goroutine is examined
+const kvCallPatience = 20 * time.Second
 
 // kvErr renders an error for a one-line description (paths of the run directory can be long)
 func kvErr(err error) string {
@@ -836,7 +876,14 @@ type kvClientFinding struct {
 
 // kvRunHistory runs the plan (one op list per client) against a fresh
 // in-memory back end and returns the recorded operations
+// kvDeadlocked: a concurrent history found the back end deadlocked; the remaining concurrent cases are skipped
+// (each would wait out its patience for the same finding)
+var kvDeadlocked atomic.Bool
+
 func kvRunHistory(plan [][]kvCIn) ([]porcupine.Operation, []kvClientFinding, error) {
+	if kvDeadlocked.Load() {
+		return nil, nil, nil
+	}
 	ctx := context.Background()
 	st, _, err := world.NewBackend(world.Inmem)
 	if err != nil {
@@ -941,7 +988,34 @@ func kvRunHistory(plan [][]kvCIn) ([]porcupine.Operation, []kvClientFinding, err
 			}
 		}(cl)
 	}
-	wg.Wait()
+	allDone := make(chan struct{})
+	go func() { wg.Wait(); close(allDone) }()
+	select {
+	case <-allDone:
+	case <-time.After(3 * kvCallPatience):
+		// the clients have not finished: a finding only if goroutines are parked on a lock inside the back
+		// end (readers and writers waiting for one another), otherwise a slow machine
+		buf := make([]byte, 4<<20)
+		buf = buf[:runtime.Stack(buf, true)]
+		parked := 0
+		sample := ""
+		for _, g := range strings.Split(string(buf), "\n\n") {
+			if strings.Contains(g, "nodeenrollment/storage/") && (strings.Contains(g, "sync.(*RWMutex).Lock") || strings.Contains(g, "sync.(*RWMutex).RLock") || strings.Contains(g, "sync.(*Mutex).Lock")) {
+				parked++
+				if sample == "" {
+					sample = g
+					if i := strings.Index(sample, "\n"); i > 0 {
+						sample = sample[:i]
+					}
+				}
+			}
+		}
+		if parked > 0 {
+			kvDeadlocked.Store(true)
+			return nil, []kvClientFinding{{"concurrent:operations-never-returned", fmt.Sprintf("under concurrent use %d client goroutines are parked on a lock of the back end and none has finished after %v (first: %s): the back end deadlocked", parked, 3*kvCallPatience, sample)}}, nil
+		}
+		return nil, nil, fmt.Errorf("concurrent history did not finish within %v and no goroutine is parked on a back-end lock", 3*kvCallPatience)
+	}
 	var hist []porcupine.Operation
 	var fs []kvClientFinding
 	for cl := 0; cl < n; cl++ {
@@ -1176,7 +1250,11 @@ func kvRunBig(c *engine.Ctx, kase kvCase) {
 	plan := kvBigPlan(kase.Seed, kase.Index, kase.Clients, kase.OpsPerClient)
 	hist, findings, err := kvRunHistory(plan)
 	if err != nil {
-		r.Broken("kvmodel: " + err.Error())
+		if strings.Contains(err.Error(), "did not finish within") {
+			r.Inconclusive("kvmodel: " + err.Error())
+		} else {
+			r.Broken("kvmodel: " + err.Error())
+		}
 		return
 	}
 	for _, f := range findings {
@@ -1240,7 +1318,11 @@ func kvRunSmall(c *engine.Ctx, kase kvCase) {
 	plan := kvSmallPlan(kase.Seed, kase.Index)
 	hist, findings, err := kvRunHistory(plan)
 	if err != nil {
-		r.Broken("kvmodel: " + err.Error())
+		if strings.Contains(err.Error(), "did not finish within") {
+			r.Inconclusive("kvmodel: " + err.Error())
+		} else {
+			r.Broken("kvmodel: " + err.Error())
+		}
 		return
 	}
 	for _, f := range findings {
